@@ -351,6 +351,51 @@ def check_certified(ctx: Ctx, f):
             restoring = any(a.startswith(f"F:{CERT}(sol") for a in at) or ast.unparse(n.value) in ("old_val", "(0.0, 1.0)")
             chosen = "T:best_swap" in at
             ctx.ob("C04-O3", "R14 GATE", rb, f"post-gate edit `{ast.unparse(n)[:40]}` is re-certified, a restore, or a certified choice", tested_after or restoring or chosen, "", node=n)
+    # the restore after a trial swap writes (0, 1) back: right only if the pair was drawn from the zeros and the ones of
+    # the vector as it is now - the candidate lists are rebuilt from `sol` in every pass and nothing else writes them
+    parents = {ch: par for par in ast.walk(rb.node) for ch in ast.iter_child_nodes(par)}
+
+    def _up(n, kinds):
+        out = []
+        while n in parents:
+            n = parents[n]
+            if isinstance(n, kinds):
+                out.append(n)
+        return out
+
+    trials = [n for n in own_nodes(rb.node) if isinstance(n, ast.Assign) and isinstance(n.targets[0], ast.Tuple) and "sol[" in ast.unparse(n.targets[0]) and _up(n, ast.For)]
+    n_lists = 0
+    for tr in trials[:1]:
+        loops = _up(tr, ast.While)
+        for fr in _up(tr, ast.For):
+            if not isinstance(fr.iter, ast.Name):
+                continue
+            L = fr.iter.id
+            n_lists += 1
+            defs = [d for d in own_nodes(rb.node) if isinstance(d, ast.Assign) and any(isinstance(t, ast.Name) and t.id == L for t in d.targets)]
+            other = [w for w in own_nodes(rb.node) if (isinstance(w, (ast.Assign, ast.AugAssign, ast.Delete)) and any(isinstance(t, ast.Subscript) and ast.unparse(t.value) == L for t in (w.targets if isinstance(w, (ast.Assign, ast.Delete)) else [w.target]))) or (isinstance(w, ast.AugAssign) and ast.unparse(w.target) == L) or (isinstance(w, ast.Call) and isinstance(w.func, ast.Attribute) and ast.unparse(w.func.value) == L and w.func.attr in ("append", "remove", "pop", "insert", "extend", "clear", "sort", "reverse"))]
+            tgt = ast.unparse(fr.target)
+            mate = next((ast.unparse(g.target) for g in _up(tr, ast.For) if g is not fr), "?")
+            lost, gained, stray = [], [], []
+            for w in other:
+                at_w = g2.guard_atoms(c2.stmt_node_containing(w), stable_only=False)
+                if "T:best_swap" not in at_w:
+                    stray.append(w)
+                elif isinstance(w, ast.Call) and w.func.attr == "remove" and len(w.args) == 1:
+                    lost.append(ast.unparse(w.args[0]))
+                elif isinstance(w, ast.Call) and w.func.attr == "append" and len(w.args) == 1:
+                    gained.append(ast.unparse(w.args[0]))
+                elif isinstance(w, ast.Assign) and ast.unparse(w.targets[0]).startswith(f"{L}[{L}.index("):
+                    lost.append(ast.unparse(w.targets[0].slice.args[0]))
+                    gained.append(ast.unparse(w.value))
+                else:
+                    stray.append(w)
+            if other and not stray and lost == [tgt] and gained == [mate] and len(defs) == 1 and isinstance(defs[0].value, ast.ListComp) and "sol[" in ast.unparse(defs[0].value):
+                ctx.ob("C04-O3", "R14 GATE", rb, f"swap candidates `{L}` are kept in step with the vector: an accepted swap takes `{tgt}` out and puts `{mate}` in", True, "", node=other[0])
+                continue
+            fresh = len(defs) == 1 and isinstance(defs[0].value, ast.ListComp) and "sol[" in ast.unparse(defs[0].value) and bool(loops) and _up(defs[0], ast.While)[:1] == loops[:1]
+            ctx.ob("C04-O3", "R14 GATE", rb, f"swap candidates `{L}` are read off the vector anew in every pass of the improvement loop, and nothing else writes the list", fresh and not other, (f"`{ast.unparse(other[0])[:50]}` edits the list by hand" if other else f"{len(defs)} definition(s), {'outside' if defs and not fresh else 'inside'} the loop") + ": an index that is no longer a zero (or a one) of the vector is tried again, and the restore after its trial writes 0 into a variable that is 1 - the returned point was never certified", node=(other or defs or [fr])[0])
+    ctx.floor("swap candidate lists in _round_binary", n_lists, 2)
     sm = ctx.func(MOD, "_solve_sub_mip")
     c3 = cfg_of(sm.node)
     g3 = GuardView(c3)
@@ -787,7 +832,30 @@ def _v_eps_forwarded_to_lp(tree):
     M.replace_expr(g, lambda e: isinstance(e, ast.Call) and M.src_has(e.func, "solve_lp"), M.expr("solve_lp(c_red, A_red, b_red, minimize=minimize, eps=eps, max_iter=max_iter)"))
 
 
+def _hoist_swap_lists(tree, zeros_update):
+    g = M.find_func(tree, "_round_binary")
+    M.replace_stmt(g, lambda s: M.src_is(s, "zeros = [j for j in int_set if sol[j] < 0.5]"), [])
+    M.replace_stmt(g, lambda s: M.src_is(s, "ones = [j for j in int_set if sol[j] > 0.5]"), [])
+    whiles = [n for n in ast.walk(g) if isinstance(n, ast.While)]
+    last = whiles[-1] if whiles[-1].lineno > whiles[0].lineno else whiles[0]
+    last = max(whiles, key=lambda w: w.lineno)
+    body = g.body
+    k = body.index(last)
+    body[k - 1 : k - 1] = M.stmts("zeros = [j for j in int_set if sol[j] < 0.5]\nones = [j for j in int_set if sol[j] > 0.5]")
+    M.replace_stmt(g, lambda s: isinstance(s, ast.Assign) and M.src_is(s, "improved = True") and any(isinstance(p, ast.If) and M.src_is(p.test, "best_swap") and s in p.body for p in ast.walk(g)), M.stmts(f"ones[ones.index(j_off)] = j_on\n{zeros_update}\nimproved = True"))
+
+
+def _v_swap_lists_missed_update(tree):
+    _hoist_swap_lists(tree, "zeros.append(j_off)")
+
+
+def _t_swap_lists_kept_in_step(tree):
+    _hoist_swap_lists(tree, "zeros[zeros.index(j_on)] = j_off")
+
+
 VARIANTS = [
+    M.Variant("swap candidate lists kept by hand, the new one never leaves `zeros` (seed C04-X)", ML, _v_swap_lists_missed_update, "C04-O3"),
+    M.Variant("twin: swap candidate lists kept in step by hand (both lists lose one index and gain the other)", ML, _t_swap_lists_kept_in_step, None),
     M.Variant("solve_milp hands its eps = 1e-6 to the simplex (original defect, ledger row 69)", ML, _v_eps_forwarded_to_lp, "C04-O12"),
     M.Variant("simplex phase 1 tests the residual infeasibility before the budget exit: a node LP that ran out of pivots is pruned as INFEASIBLE (seed C04-U)", "solvor/simplex.py", _v_phase1_infeasible_before_budget, "C04-O12"),
     M.Variant("LNS repair splices a remembered sub-MIP answer into the current solution (seed C04-S)", ML, _v_lns_repair_memo, "C04-O3"),
